@@ -235,7 +235,7 @@ Record GI (t : expr) : Prop := mkGI {
   gi_fcg : fcg t;
   gi_lcg : lcg t;
   gi_unary : prec_OpUnary <= lvl t -> unary_first t;
-  gi_update : prec_OpUpdate <= lvl t -> leafy (fT t) \/ fT t = tt_OpenParenToken;
+  gi_update : prec_OpLHS <= lvl t -> leafy (fT t) \/ fT t = tt_OpenParenToken;
   gi_lhs : prec_OpLHS <= lvl t -> lhs_last t
 }.
 
@@ -331,20 +331,20 @@ Proof.
 Qed.
 
 (* comma expressions *)
-Lemma pitems_comma_snoc q inf ts x y : spells q inf ts x ->
+Lemma pitems_comma_snoc inf ts x y : spells inf ts x ->
   pitems (comma_snoc x y) = pitems x ++ ptok tt_CommaToken :: pitems y.
 Proof.
   intros Hx. destruct x; cbn [comma_snoc pitems map sep_items]; try reflexivity.
   destruct l as [|a l].
-  - exfalso. pose proof (spells_comma_len _ _ _ _ Hx [] eq_refl) as H. cbn in H. lia.
+  - exfalso. pose proof (spells_comma_len _ _ _ Hx [] eq_refl) as H. cbn in H. lia.
   - rewrite map_app. cbn [map]. rewrite ptoks_sep_snoc by discriminate. reflexivity.
 Qed.
 
-Lemma fT_comma_snoc q inf ts x y : spells q inf ts x -> fT (comma_snoc x y) = fT x.
+Lemma fT_comma_snoc inf ts x y : spells inf ts x -> fT (comma_snoc x y) = fT x.
 Proof.
   intros Hx. destruct x; cbn [comma_snoc fT]; try reflexivity.
   destruct l as [|a l]; [|reflexivity].
-  exfalso. pose proof (spells_comma_len _ _ _ _ Hx [] eq_refl) as H. cbn in H. lia.
+  exfalso. pose proof (spells_comma_len _ _ _ Hx [] eq_refl) as H. cbn in H. lia.
 Qed.
 
 Lemma lT_comma_snoc x y : lT (comma_snoc x y) = lT y.
@@ -407,13 +407,13 @@ Ltac vf inf k Hv :=
   let SF := fresh "SF" in
   pose proof (sfact_all inf (ty k)) as SF; rewrite Hv in SF; cbn [sfact] in SF; b2p.
 
-Lemma glue_all q :
-  (forall inf ts t (s : spells q inf ts t), GI t) /\
-  (forall ats args (s : spells_args q ats args), gaps_ok (gaps (args_items args)) = true).
+Lemma glue_all :
+  (forall inf ts t (s : spells inf ts t), GI t) /\
+  (forall ats args (s : spells_args ats args), gaps_ok (gaps (args_items args)) = true).
 Proof.
   pose proof prec_order as PO.
   destruct is_punct_consts as [PLP [PRP [PLB [PRB [PCM [PDT [PIN [PDE LID]]]]]]]].
-  apply (spells_both_ind q (fun _ _ t _ => GI t) (fun _ args _ => gaps_ok (gaps (args_items args)) = true)).
+  apply (spells_both_ind (fun _ _ t _ => GI t) (fun _ args _ => gaps_ok (gaps (args_items args)) = true)).
   - (* leaf *)
     intros inf k e Hv. destruct (leaf_leafy _ _ Hv) as [Hf [Hl Hp]].
     destruct (leaf_shape _ _ Hv) as [[n E]|[t [d E]]]; subst e; cbn [pitems fT lT] in *;
@@ -434,20 +434,6 @@ Proof.
     + intros _. right. left. reflexivity.
     + intros _. right. reflexivity.
     + intros _. right. cbn. auto.
-  - (* group with a trailing comma: the same tree *)
-    intros inf ko pG pS ts t km kc Hq Hv Ht IH Hl Hkm Hkc. destruct IH.
-    assert (Hne : pitems t <> []) by (apply pitems_nonempty; assumption).
-    split; unfold fcg, lcg, unary_first, lhs_last; cbn [pitems fT lT]; unfold ptok.
-    + rewrite (gaps_cons_tok _ _ _ _ (fT t)) by (rewrite firstT_app by exact Hne; assumption).
-      rewrite (gaps_snoc_tok _ _ _ _ (lT t)) by assumption.
-      rewrite gi_ok0, (glue_after _ t PLP pp_lp_first gi_fcg0), (glue_before _ t PRP ltac:(vm_compute; discriminate) pp_last_rp gi_lcg0). reflexivity.
-    + reflexivity.
-    + rewrite lastT_cons by (destruct (pitems t); discriminate). apply lastT_snoc.
-    + right. cbn. auto.
-    + right. cbn. auto.
-    + intros _. right. left. reflexivity.
-    + intros _. right. reflexivity.
-    + intros _. right. cbn. auto.
   - (* prefix operator *)
     intros inf k pG pO pS pN ts x Hv Hx IH Hl. destruct IH.
     pose proof (pfact_all k) as PF. rewrite Hv in PF. cbn [pfact] in PF. b2p.
@@ -455,8 +441,8 @@ Proof.
     { unfold is_postfix. unfold is_postfix_op in *. destruct ((pO =? tt_PostIncrToken) || (pO =? tt_PostDecrToken)); [discriminate|reflexivity]. }
     assert (Hux : unary_first x) by (apply gi_unary0; zlia).
     destruct (prefix_result_in _ _ _ _ _ Hv) as [Hin Hft].
-    assert (Hlv : lvl (EUnary pO x) = prec_OpUnary).
-    { cbn [lvl]. unfold is_postfix_op. unfold is_postfix in Hnp. rewrite Hnp. reflexivity. }
+    assert (Hlv : lvl (EUnary pO x) <= prec_OpUpdate).
+    { cbn [lvl]. destruct (is_update_op pO); zlia. }
     assert (Hne : pitems x <> []) by (apply pitems_nonempty; assumption).
     split; unfold fcg, lcg, unary_first, lhs_last; cbn [pitems fT lT]; rewrite ?Hnp.
     + destruct (unary_needs_space pO x) eqn:Ens.
@@ -478,15 +464,15 @@ Proof.
     + exact Hft.
     + exact gi_lcg0.
     + intros _. right. right. eauto.
-    + intros H'. rewrite Hlv in H'. zlia.
-    + intros H'. rewrite Hlv in H'. zlia.
+    + intros H'. zlia.
+    + intros H'. zlia.
   - (* postfix operator *)
     intros inf k pL pR pO pN xs x Hv Hlt Hx IH Hl. destruct IH.
     vf inf k Hv.
     assert (LL : lhs_last x) by (apply gi_lhs0; zlia).
     assert (UX : leafy (fT x) \/ fT x = tt_OpenParenToken) by (apply gi_update0; zlia).
     assert (Hp : is_postfix pO = true) by (unfold is_postfix; unfold is_postfix_op in *; assumption).
-    assert (Hlv : lvl (EUnary pO x) = prec_OpUpdate) by (cbn [lvl]; rewrite H1; reflexivity).
+    assert (Hlv : lvl (EUnary pO x) = prec_OpUpdate) by (cbn [lvl]; rewrite (postfix_is_update _ H1); reflexivity).
     assert (Hne : pitems x <> []) by (apply pitems_nonempty; assumption).
     assert (Htk : is_punct (unary_tok pO) = true /\ unary_tok pO <> tt_DotToken /\ In (unary_tok pO) lastset /\
                   forallb (fun a => glue_ok a (unary_tok pO)) [tt_CloseParenToken; tt_CloseBracketToken] = true).
@@ -502,7 +488,7 @@ Proof.
     + exact gi_fcg0.
     + right. exact T3.
     + intros _. destruct UX as [Hu|Hu]; [left; exact Hu|right; left; exact Hu].
-    + intros _. exact UX.
+    + intros H'. rewrite Hlv in H'. zlia.
     + intros H'. rewrite Hlv in H'. zlia.
   - (* binary operator *)
     intros inf k pL pR pX pS pN xs x ys y Hv Hx IHx Hok Hy IHy Hl. destruct IHx as [ox fx lx cx dx ux vx wx]. destruct IHy as [oy fy ly cy dy uy vy wy].
@@ -621,13 +607,13 @@ Proof.
     assert (Hnx : pitems x <> []) by (apply pitems_nonempty; assumption).
     assert (Hny : pitems y <> []) by (apply pitems_nonempty; assumption).
     assert (Hlv : lvl (comma_snoc x y) = prec_OpExpr) by (destruct x; reflexivity).
-    split; rewrite ?(pitems_comma_snoc _ _ _ _ y Hx), ?(fT_comma_snoc _ _ _ _ y Hx), ?lT_comma_snoc; unfold ptok.
+    split; rewrite ?(pitems_comma_snoc _ _ _ y Hx), ?(fT_comma_snoc _ _ _ y Hx), ?lT_comma_snoc; unfold ptok.
     + rewrite (gaps_join _ _ (lT x) tt_CommaToken) by (try assumption; reflexivity).
       rewrite (gaps_cons_tok _ _ _ _ (fT y)) by assumption.
       rewrite ox, oy, (glue_before _ x PCM ltac:(vm_compute; discriminate) pp_last_comma dx), (glue_after _ y PCM pp_comma_first cy). reflexivity.
     + rewrite firstT_app by exact Hnx. assumption.
     + rewrite lastT_app by discriminate. rewrite lastT_cons by exact Hny. assumption.
-    + unfold fcg. rewrite (fT_comma_snoc _ _ _ _ y Hx). exact cx.
+    + unfold fcg. rewrite (fT_comma_snoc _ _ _ y Hx). exact cx.
     + unfold lcg. rewrite lT_comma_snoc. exact dy.
     + intros H'. rewrite Hlv in H'. zlia.
     + intros H'. rewrite Hlv in H'. zlia.
@@ -663,8 +649,8 @@ Qed.
 
 (* Wherever the printer puts two tokens next to each other without a space, a longest-match lexer cannot read them
    differently — for every grammatical tree, hence for the tree of every accepted token list. *)
-Theorem unspaced_tokens_safe_spelling q inf ts t : spells q inf ts t -> gaps_ok (gaps (pitems t)) = true.
-Proof. intros s. exact (gi_ok _ (proj1 (glue_all q) inf ts t s)). Qed.
+Theorem unspaced_tokens_safe_spelling inf ts t : spells inf ts t -> gaps_ok (gaps (pitems t)) = true.
+Proof. intros s. exact (gi_ok _ (proj1 glue_all inf ts t s)). Qed.
 
 Theorem unspaced_tokens_safe_proof :
   forall inf ts t, parse inf prec_OpExpr ts = Ok (t, []) -> gaps_ok (gaps (pitems t)) = true.
